@@ -416,9 +416,9 @@ impl Property for C20 {
     fn streams(&self, tier: Tier, _seed: u64) -> Vec<Stream> {
         let n = type_space().len() as u64;
         let mut v = vec![Stream::new("all-ordered-pairs(row per case)", n, true, |i| format!("row:{i}"))];
-        if tier == Tier::Thorough {
-            v.push(Stream::new("all-ordered-triples(row per case)", n * n, true, |i| format!("trow:{i}")));
-        }
+        // (1.6 million triples: a few seconds; both tiers run them)
+        let _ = tier;
+        v.push(Stream::new("all-ordered-triples(row per case)", n * n, true, |i| format!("trow:{i}")));
         v.push(Stream::new("literal-castability-at-declarations", (LIT_TARGETS.len() * LIT_VALUES.len()) as u64, true, |i| format!("lit:{i}")));
         v
     }
